@@ -4,8 +4,8 @@
 set -u
 ID=$1; shift
 CHECKS=${*:-$ID}
-W=/tmp/seed/$ID
-S=/verif/seeded/$ID
+W=${SEEDROOT:-/tmp/seed}/$ID
+S=/verif/seeded/$ID${SUFFIX:-}
 export CARGO_NET_OFFLINE=true
 mkdir -p $S
 cd $W || exit 1
@@ -19,10 +19,10 @@ git apply -R $S/patch.diff
 cargo test --offline --test seed_demo > $S/demo_without_change.log 2>&1; B=$?
 git apply $S/patch.diff
 # 3. existing suite passes with the change (demo moved away)
-mv tests/seed_demo.rs /tmp/seed/$ID.demo.rs
+mv tests/seed_demo.rs $W.demo.rs
 cargo test --offline > $S/suite_with_change.log 2>&1; C=$?
 C2=skipped
-mv /tmp/seed/$ID.demo.rs tests/seed_demo.rs
+mv $W.demo.rs tests/seed_demo.rs
 echo "demo_with_change_exit=$A (want !=0)  demo_without_change_exit=$B (want 0)  suite_with_change_exit=$C (want 0) suite_nd=$C2"
 for f in demo_with_change demo_without_change suite_with_change; do tail -5 $S/$f.log | grep -E "^test result|error" | head -3 > $S/$f.summary; rm -f $S/$f.log; done
 # 4. run the checks against a scratch copy of /repo with the patch applied
